@@ -58,6 +58,8 @@ type scenario struct {
 	breq     batch.Request
 	schema   *fixtures.Schema
 	schemaJS []byte
+	doc      []byte // a document of 0-14 statements (ids policy0..n-1 when loaded)
+	docN     int
 }
 
 var idPool = []cedar.PolicyID{"p0", "p1", "p10", "p2", "a", "B", "policy0", "é"}
@@ -159,6 +161,18 @@ func genScenario(r *core.Run) *scenario {
 	}
 	sc.breq.Context = types.NewRecord(ctx)
 	sc.breq.Variables = vars
+	// a document to be loaded with NewPolicySetFromBytes: same contents as a set built by Add
+	sc.docN = r.T.Intn(15)
+	var db bytes.Buffer
+	for i := 0; i < sc.docN; i++ {
+		if len(sc.texts) > 0 && r.T.Intn(3) == 2 {
+			db.WriteString(sc.texts[r.T.Intn(len(sc.texts))])
+		} else {
+			fmt.Fprintf(&db, "@idx(\"%d\") permit (principal, action == Action::\"%s\", resource);", i, gen.IDs[r.T.Intn(len(gen.IDs))])
+		}
+		db.WriteString("\n")
+	}
+	sc.doc = db.Bytes()
 	sc.schema = fixtures.Pick(r.T)
 	if sc.schema != nil {
 		var s schema.Schema
@@ -232,7 +246,7 @@ func perm(s *verifsim.Tape, n int, canonical bool) []int {
 }
 
 // observe computes every observable under the schedule currently installed in r.Sim.
-func observe(r *core.Run, sc *scenario, canonical bool) (out []obs, permuted bool) {
+func observe(r *core.Run, sc *scenario, canonical bool) (out []obs, permuted bool, direct *core.Violation) {
 	add := func(name, val string) { out = append(out, obs{name, val}) }
 	S := r.S
 	// insertion order (with repetition)
@@ -311,6 +325,28 @@ func observe(r *core.Run, sc *scenario, canonical bool) (out []obs, permuted boo
 	b, _ = json.Marshal(sc.req)
 	add("Request.MarshalJSON", string(b))
 
+	// the same contents reached through different construction histories must encode identically
+	if loaded, err := cedar.NewPolicySetFromBytes("doc.cedar", sc.doc); err == nil {
+		added := cedar.NewPolicySet()
+		for _, i := range perm(S, sc.docN, canonical) {
+			id := cedar.PolicyID(fmt.Sprintf("policy%d", i))
+			added.Add(id, loaded.Get(id))
+		}
+		lj, _ := loaded.MarshalJSON()
+		aj, _ := added.MarshalJSON()
+		lc, ac := loaded.MarshalCedar(), added.MarshalCedar()
+		add("PolicySet.MarshalCedar(loaded document)", string(lc))
+		add("PolicySet.MarshalJSON(loaded document)", string(lj))
+		if !bytes.Equal(lc, ac) && direct == nil {
+			direct = core.Violationf("construction-history", "construction-history:MarshalCedar", "a set loaded from a %d-statement document and a set holding the same policies under the same ids built with Add encode differently\n  loaded: %s\n  added:  %s", sc.docN, clip(string(lc)), clip(string(ac)))
+		}
+		if !bytes.Equal(lj, aj) && direct == nil {
+			direct = core.Violationf("construction-history", "construction-history:MarshalJSON", "a set loaded from a document and the same contents built with Add give different JSON")
+		}
+	} else if sc.docN > 0 {
+		add("PolicySet(loaded document)", "ERR")
+	}
+
 	// decode the same bytes under this schedule, re-encode
 	for i, js := range sc.polJSON {
 		var p cedar.Policy
@@ -387,7 +423,7 @@ func observe(r *core.Run, sc *scenario, canonical bool) (out []obs, permuted boo
 			}
 		}
 	}
-	return out, permuted
+	return out, permuted, direct
 }
 
 func okOrErr(b []byte, err error) string {
@@ -421,11 +457,17 @@ func (p Prop) Run(r *core.Run) *core.Violation {
 	sim := r.Sim
 	sim.OrderMode = verifsim.OrderCanonical
 	sim.Activate()
-	base, _ := observe(r, sc, true)
+	base, _, d1 := observe(r, sc, true)
 	baseEvents := sim.IterEvents
 	sim.OrderMode = verifsim.OrderTape
-	alt, permuted := observe(r, sc, false)
+	alt, permuted, d2 := observe(r, sc, false)
 	sim.Deactivate()
+	if d1 != nil {
+		return d1
+	}
+	if d2 != nil {
+		return d2
+	}
 	_ = baseEvents
 	if sim.IterPermuted > 0 || permuted {
 		h := fnv.New64a()
